@@ -1,17 +1,23 @@
 """C07 -- the compiler is total: no panic, no hang, failures are rendered errors."""
 import collections
+import re
 
 import noise_gen
 import prog_gen
+import sylt_gen
 import vlib
 
-GEN = ["GenPanicSites", "GenTokens"]
+GEN = ["GenPanicSites", "GenTokens", "GenPrec"]
 TRUSTED = [
     "Coq 8.16.1 kernel; vm_compute for C07_sites_covered; no axioms",
     "translator tools/gens/gen_panicsites.py (regex scan for unreachable!/panic!/assert!/unwrap/expect/remove(0) outside #[cfg(test)] and the formatter)",
     "coq/Total/DocPanicSites.v: the hand review of why each site cannot fire on the compile path",
     "the lexer model (C17) for C07_lexer_total / C07_token_bounds",
     "the totality oracle: harness `compile` with catch_unwind, a per-case watchdog thread, a 1 GiB stack, and Display of every returned error",
+    "parser_total: Parse/Parser.v as the model of sylt-parser (modelled, not verified; the `parser_total` tie component runs the "
+    "extracted model with the proved fuel parse_fuel = 6*tokens+6 against the real parser on the noise inputs: accept/reject, "
+    "syntax-error positions and trees), Lex/Logos.v (C17), extraction + ocaml/parse_driver.ml; the model follows the release "
+    "build's wrapping `curr - last_statement` in Context::comments_since_last_statement",
     "not covered: native stack exhaustion (nesting depth is bounded in the generators, as the property allows), allocation failure, wall-clock beyond the watchdog",
 ]
 ASSUMPTIONS = ["inputs are valid UTF-8 served from an in-memory file map",
@@ -48,11 +54,25 @@ NASTY = [
     "E :: enum A, A end\nstart :: fn do end\n",
     "B :: blob { a: int, a: int }\nstart :: fn do end\n",
     "B :: blob { self: int }\nstart :: fn do end\n",
+    # duplicate names: apart, nested, in inner positions (always rejected since /repo 1fc1000)
+    "B :: blob { a: int, b: str, a: int }\nstart :: fn do end\n",
+    "E :: enum A, B int, A str end\nstart :: fn do end\n",
+    "start :: fn do\n  B :: blob { a: int, b: B, a: float }\n  E :: enum\n    A\n    B\n    A\n  end\nend\n",
+    "start :: fn do\n  f :: fn do\n    if true do\n      B :: blob { x: int,\n x: int }\n    end\n  end\nend\n",
+    "B :: blob { a: int, a: int, a: int }\nE :: enum A, A, A end\nstart :: fn do end\n",
 ]
+
+_model = {}
 
 
 def build(ctx):
-    return True, ""
+    # the extracted parser model for the parser_total tie component
+    ok, out = vlib.coq_make(["Parse/Entry.vo"])
+    if not ok:
+        return False, out
+    ok, exe, out = vlib.build_ocaml("parse", "ExtractParse.v", "parse_driver.ml", "parsemodel")
+    _model["exe"] = exe
+    return ok, out
 
 
 def gen_cases(ctx):
@@ -93,6 +113,105 @@ def run(ctx, cases, debug=False):
     return vlib.harness("compile", lines, timeout_s=30, debug=debug)
 
 
+# ------------------------------------------------------------------------------------------------
+# parser_total: the parser model, run with the fuel bound of C07_parser_total, against the real parser
+
+def _unty(x):
+    if isinstance(x, list):
+        if len(x) == 2 and x[0] == "ty":
+            return _unty(x[1])
+        return [_unty(y) for y in x]
+    return x
+
+
+def pt_real(srcs):
+    """one line per source: 'OK <module sexp>' | 'ERR <distinct syntax-error spans>' | 'SKIP ...' (an error that is
+    not a syntax error, e.g. a missing import) | the harness line (PANIC/TIMEOUT)"""
+    lines = [noise_gen.case_line({"/main.sy": s}, flags="nostd") for s in srcs]
+    out = []
+    for o in vlib.harness("tree", lines, timeout_s=30):
+        if o.startswith("TREE"):
+            txt = re.sub(r"@\d+:\d+:\d+", "", vlib.unhex(o.split(" ")[1]).decode()).strip()
+            mods = [m for m in _unty(sylt_gen.sexp_parse("(" + txt + ")")) if m[1] == "file:/main.sy"]
+            out.append("OK " + sylt_gen.sexp_str(["module"] + mods[0][3:]) if mods else "SKIP no main module")
+        elif o.startswith("ERR"):
+            spans = []
+            for e in o.split(" ")[1:]:
+                f = e.split("|")
+                if f[0] != "Syntax" or f[1] != "/main.sy":
+                    spans = None
+                    break
+                sp = "%s:%s:%s" % (f[2], f[3], f[4])
+                if sp not in spans:
+                    spans.append(sp)
+            out.append("SKIP " + o[:80] if spans is None else "ERR " + " ".join(spans))
+        else:
+            out.append(o[:200])
+    return out
+
+
+def pt_model(srcs):
+    res = []
+    for o in vlib.model(_model["exe"], ["module"], [vlib.hexs(s) for s in srcs]):
+        if o.startswith("OK"):
+            res.append("OK " + o.split(" ", 2)[2])
+        elif o.startswith("ERR"):
+            spans = []
+            for sp in o.split(" ")[2:]:
+                if sp not in spans:
+                    spans.append(sp)
+            res.append("ERR " + " ".join(spans))
+        else:
+            res.append(o[:200])      # FUEL / MODELPANIC: the totality theorem says these cannot happen
+    return res
+
+
+def pt_disagree(real, model):
+    if not (model.startswith("OK ") or model.startswith("ERR ")):
+        return "model outcome %r (C07_parser_total excludes it)" % model[:40]
+    if real.startswith("SKIP"):
+        return None
+    if sylt_gen.norm_floats(real) != sylt_gen.norm_floats(model):
+        return "real parser: %s | model with parse_fuel: %s" % (real[:200], model[:200])
+    return None
+
+
+def pt_sources(ctx, cases):
+    srcs = [list(f.values())[0] for _, f, _ in cases if len(f) == 1]
+    # generated programs in the surface styles of C14 (4% of their type declarations carry duplicate names)
+    r = vlib.rng(ctx.seed, "c07-pt")
+    for i in range(300 if ctx.tier == "quick" else 6000):
+        on = {f: r.random() < 0.3 for f in sylt_gen.Style.FEATURES}
+        srcs.append(sylt_gen.render_program(sylt_gen.gen_program(r, size=r.randint(1, 4)),
+                                            sylt_gen.Style(r.randrange(1 << 30), p=r.choice([0.3, 0.6, 0.9]), **on)))
+    seen, out = set(), []
+    for s in srcs:
+        if s not in seen:
+            seen.add(s)
+            out.append(s)
+    if ctx.tier == "quick":
+        out = out[:6000] + out[-600:]
+    return out
+
+
+def parser_total_tie(ctx, cases):
+    srcs = pt_sources(ctx, cases)
+    real, model = pt_real(srcs), pt_model(srcs)
+    bad = []
+    outcome = collections.Counter()
+    for s, a, b in zip(srcs, real, model):
+        outcome["real " + a.split(" ")[0] + " / model " + b.split(" ")[0]] += 1
+        why = pt_disagree(a, b)
+        if why:
+            bad.append((s, why))
+    ctx.c07_pt_bad = bad
+    return {"name": "parser_total", "ok": not bad, "evaluations": len(srcs), "outcomes": dict(outcome),
+            "mismatches": [{"class": "parser_total", "files": {"/main.sy": s[:2000]}, "what": why} for s, why in bad[:5]],
+            "rule": "every single-file noise input and generated programs (incl. duplicate blob fields / enum variants): "
+                    "whole-file parse by the extracted model with fuel parse_fuel vs sylt_parser::tree: same accept/reject, "
+                    "same distinct syntax-error positions, same tree; the model must never answer FUEL or MODELPANIC"}
+
+
 def tie(ctx):
     cases = gen_cases(ctx)
     res = run(ctx, cases)
@@ -115,7 +234,10 @@ def tie(ctx):
     distinct = len(set(noise_gen.case_line(f, flags=fl) for _, f, fl in cases if sum(len(s) for s in f.values()) > 20))
     samples = [{"class": cases[i][0], "files": {k: v[:300] for k, v in cases[i][1].items()}, "result": res[i][:120]}
                for i in (1, len(cases) // 2, len(cases) - 1)]
-    return {"name": "totality", "ok": not bad, "mismatches": mism, "evaluations": len(cases), "distinct_nontrivial": distinct,
+    pt = parser_total_tie(ctx, cases)
+    return {"name": "totality" if bad or pt["ok"] else "parser_total", "ok": not bad and pt["ok"],
+            "mismatches": mism + pt["mismatches"], "components": {"parser_total": pt},
+            "evaluations": len(cases) + pt["evaluations"], "distinct_nontrivial": distinct,
             "rule": "mutated/truncated/spliced programs from /repo/tests, token soup, multi-error programs, multi-file projects with "
                     "missing/conflicting/cyclic imports, hand-written nasty inputs, mutants of generated well-typed programs; with and "
                     "without std; every returned error is rendered; non-trivial = more than 20 bytes of source; distinct by sources+flags",
@@ -128,10 +250,29 @@ def failing(ctx, file_sets, flags):
     return [classify(x) is not None for x in res]
 
 
+def search_parser_total(ctx):
+    bad = getattr(ctx, "c07_pt_bad", None)
+    if not bad:
+        return None
+    bad.sort(key=lambda b: len(b[0]))
+    src, why = bad[0]
+
+    def fails(cands):
+        ss = ["".join(c) for c in cands]
+        return [pt_disagree(a, b) is not None for a, b in zip(pt_real(ss), pt_model(ss))]
+    small = "".join(vlib.shrink_seq(noise_gen.tokens_of(src), fails, max_rounds=80))
+    a, b = pt_real([small])[0], pt_model([small])[0]
+    return {"class": "parser_total", "files": {"/main.sy": small}, "what": pt_disagree(a, b) or why,
+            "real": a[:300], "model": b[:300], "case_line": noise_gen.case_line({"/main.sy": small}, flags="nostd"),
+            "replay_cmd": "write case_line to a file F and run `%s tree F`; model: `%s module` on the hex of the source"
+                          % (vlib.HARNESS_BIN, _model.get("exe")),
+            "failing_inputs_found": len(bad)}
+
+
 def search(ctx):
     bad = getattr(ctx, "c07_bad", None)
     if not bad:
-        return None
+        return search_parser_total(ctx)
     bad.sort(key=lambda b: sum(len(s) for s in b[0][1].values()))
     (cls, files, flags), why = bad[0]
     if len(files) == 1:
